@@ -292,7 +292,11 @@ func genJeEntryFlds(r *Rand) []trFld {
 		if r.Chance(1, 3) {
 			return trFld{n, tvList(nil)}
 		}
-		return trFld{n, tvList([]TV{tvInt(int64(r.Intn(codes)))})}
+		c := int64(r.Intn(codes))
+		if n == "encName" { // code 0 is reserved for the nil fall-back FullNameEncoder: 1 = no-op, 2 = "N"
+			c = 1 + int64(r.Intn(2))
+		}
+		return trFld{n, tvList([]TV{tvInt(c)})}
 	}
 	obuf := []byte{}
 	if r.Chance(2, 3) {
